@@ -30,4 +30,5 @@ PROPS = {
     "C14": rt,
     "C15": rt,
     "C16": rt,
+    "C19": rt,
 }
